@@ -44,11 +44,19 @@ def table_of(f):
     """{'var|reader text': sorted binding texts}"""
     node = f.node
     d = defs(node)
-    if not d.values:
-        return {}
     out = {}
+    params = set(d.params) - {'self', 'cls'}
+    if not d.values and not params:
+        return {}
     for n in own_nodes(node):
-        if not (isinstance(n, ast.Name) and isinstance(n.ctx, ast.Load) and n.id in d.values):
+        if not (isinstance(n, ast.Name) and isinstance(n.ctx, ast.Load)):
+            continue
+        if n.id not in d.values:
+            if n.id in params:
+                # a parameter the function never re-binds: every read sees the argument
+                st, key = _site(n, node)
+                if st is not None:
+                    out.setdefault('%s|%s' % (n.id, key), set()).add('<parameter>')
             continue
         st, key = _site(n, node)
         if st is None:
@@ -68,6 +76,19 @@ def table_of(f):
         if live and n.id in d.params:
             texts.add('<parameter>')
         out.setdefault('%s|%s' % (n.id, key), set()).update(texts)
+    # result slots and object fields: `p[0] = v`, `x.attr = v` -- everything the function may
+    # leave there (an added conditional overwrite changes what the caller finds)
+    for n in own_nodes(node):
+        if isinstance(n, ast.Assign) and len(n.targets) == 1:
+            t = n.targets[0]
+            path = None
+            if isinstance(t, ast.Subscript) and isinstance(t.value, ast.Name) and \
+                    isinstance(t.slice, ast.Constant):
+                path = '%s[%r]' % (t.value.id, t.slice.value)
+            elif isinstance(t, ast.Attribute) and isinstance(t.value, ast.Name):
+                path = '%s.%s' % (t.value.id, t.attr)
+            if path:
+                out.setdefault('%s|<stored>' % path, set()).add('assign ' + unparse(n.value))
     return {k: sorted(v) for k, v in out.items()}
 
 
@@ -164,6 +185,11 @@ def run(pm, ctx, rule, patterns):
                 continue
             reads += 1
             extra = [t for t in c if t not in rt]
+            if extra and rt == ['<parameter>'] and '<parameter>' not in c:
+                # the argument itself no longer reaches the statement: it reads a transformed
+                # value (`x = x or []`, `s = s.replace(...)` put in front of it)
+                new.append((k, extra))
+                continue
             # a re-spelled binding replaces its text one for one; only a read that more
             # bindings reach than before sees a value it never saw
             if extra and any(t in _EMPTY for t in rt):
@@ -174,9 +200,12 @@ def run(pm, ctx, rule, patterns):
                 new.append((k, extra))
         var, site = new[0][0].split('|', 1) if new else ('', '')
         ctx.check(rule, not new, '%s: reads reached by the confirmed bindings' % f.short, f.loc,
-                  msg='%s: `%s` now also reads %s as bound by `%s`: a value the statement never '
-                      'saw on the confirmed tree' % (f.short, site[:90], var,
-                                                     new[0][1][0][:90] if new else ''),
+                  msg=('%s: %s is now also left as `%s`: a value its readers never found there '
+                       'on the confirmed tree' % (f.short, var, new[0][1][0][:90] if new else ''))
+                  if site == '<stored>' else
+                  '%s: `%s` now also reads %s as bound by `%s`: a value the statement never '
+                  'saw on the confirmed tree' % (f.short, site[:90], var,
+                                                 new[0][1][0][:90] if new else ''),
                   key='%s|%s|%s|%s' % (rule, f.qualname, var, (new[0][1][0][:50] if new else '')))
         rk = _CACHE.get('kinds', {}).get(f.qualname)
         if rk:
